@@ -171,6 +171,9 @@ type c17Rec struct {
 	start time.Time
 	lines []string
 	ents  []c17Ent // the same deliveries, structured (used by the concurrent-writer block)
+	// which error a failing next-writer call returns (per case), and how many have failed
+	errKinds []string
+	nFail    int64
 }
 
 func (r *c17Rec) writer(stream int) interceptor.RTPWriter { return r.writerG(stream, 0, nil) }
@@ -195,6 +198,12 @@ func (r *c17Rec) writerG(stream, gen int, fail func() bool) interceptor.RTPWrite
 		r.lines = append(r.lines, line)
 		r.ents = append(r.ents, c17Ent{stream: stream, seq: int(h.SequenceNumber), line: line, body: body})
 		if failed {
+			// which error: one of the well-known values a transport fails with, chosen per case (ambient_test.go); a
+			// pacer keeps releasing the packets behind the failed one whatever the value
+			if len(r.errKinds) > 0 {
+				r.nFail++
+				return 0, AmbErrOf(r.errKinds[int(r.nFail-1)%len(r.errKinds)], r.nFail)
+			}
 			return 0, errC17Writer
 		}
 		return h.MarshalSize() + len(p), nil
@@ -202,6 +211,21 @@ func (r *c17Rec) writerG(stream, gen int, fail func() bool) interceptor.RTPWrite
 }
 
 var errC17Writer = errors.New("next writer failed")
+
+// c17ErrKinds derives the case's schedule of error kinds from the text of its ops.
+func c17ErrKinds(ops []string) []string {
+	h := uint64(14695981039346656037)
+	for _, op := range ops {
+		for i := 0; i < len(op); i++ {
+			h = (h ^ uint64(op[i])) * 1099511628211
+		}
+	}
+	r := NewRng(h)
+	if r.Chance(1, 4) {
+		return nil // the harness's own value
+	}
+	return strings.Split(strings.TrimPrefix(ambErrKinds(r), "errs="), ",")
+}
 
 func (r *c17Rec) flush(o *Out) {
 	r.mu.Lock()
@@ -242,7 +266,7 @@ func c17NatOK(m map[string]string, k string, max int) (v int, ok bool) {
 
 func runPacing(t *testing.T, ops []string, o *Out) {
 	synctest.Test(t, func(t *testing.T) {
-		rec := &c17Rec{start: time.Now()}
+		rec := &c17Rec{start: time.Now(), errKinds: c17ErrKinds(ops)}
 		var fac *pacing.InterceptorFactory
 		var ic interceptor.Interceptor
 		writers := map[int]interceptor.RTPWriter{}
@@ -458,10 +482,92 @@ func rtpLen(s c17Shape) int {
 	return h.MarshalSize() + len(p)
 }
 
+// c17Leaky is what the `leaky` ops need of the object under test: the LeakyBucketPacer itself, or (component
+// `bwepacer`) a gcc.SendSideBWE built WITHOUT a pacer option, whose default pacer must be a leaky bucket that runs
+// at the configured initial bitrate from the start (C16: "the pacer is told the same rate" - also the first one).
+type c17Leaky interface {
+	AddStream(ssrc uint32, w interceptor.RTPWriter)
+	Write(h *rtp.Header, p []byte, a interceptor.Attributes) (int, error)
+	SetTargetBitrate(r int)
+	Close() error
+}
+
+// c17BwePacer drives the default pacer of a SendSideBWE through the estimator's public API only: AddStream hands
+// out the pacer as the stream's writer.
+type c17BwePacer struct {
+	bwe   *gcc.SendSideBWE
+	w     interceptor.RTPWriter
+	spare uint32 // an SSRC no op of the case uses
+	init  int
+	o     *Out
+}
+
+func (b *c17BwePacer) pacer() interceptor.RTPWriter {
+	if b.w == nil { // nothing bound yet: get hold of the pacer through a stream no packet belongs to
+		b.w = b.bwe.AddStream(&interceptor.StreamInfo{SSRC: b.spare}, interceptor.RTPWriterFunc(
+			func(*rtp.Header, []byte, interceptor.Attributes) (int, error) { return 0, nil }))
+	}
+	return b.w
+}
+
+func (b *c17BwePacer) AddStream(ssrc uint32, w interceptor.RTPWriter) {
+	info := &interceptor.StreamInfo{SSRC: ssrc}
+	b.o.InfoGuard("AddStream", info, func() { b.w = b.bwe.AddStream(info, w) })
+}
+
+func (b *c17BwePacer) Write(h *rtp.Header, p []byte, a interceptor.Attributes) (int, error) {
+	return b.pacer().Write(h, p, a)
+}
+
+func (b *c17BwePacer) SetTargetBitrate(r int) {
+	if lb, ok := b.pacer().(*gcc.LeakyBucketPacer); ok {
+		lb.SetTargetBitrate(r)
+		return
+	}
+	b.o.P("DEFAULT-PACER-IS-NOT-THE-LEAKY-BUCKET %T", b.pacer())
+}
+
+func (b *c17BwePacer) Close() error { return b.bwe.Close() }
+
+func runBwePacer(t *testing.T, ops []string, o *Out) {
+	used := map[uint32]bool{}
+	for _, op := range ops {
+		_, m := kv(op)
+		for _, k := range []string{"s", "ssrc"} {
+			if v, ok := c17NatOK(m, k, 1<<32-1); ok {
+				used[uint32(v)] = true
+			}
+		}
+	}
+	spare := uint32(0x5EED5EED)
+	for used[spare] {
+		spare++
+	}
+	runLeakyWith(t, ops, o, func(r int, m map[string]string) c17Leaky {
+		mn, ok1 := c17NatOK(m, "min", 2_000_000_000)
+		mx, ok2 := c17NatOK(m, "max", 2_000_000_000)
+		if !ok1 || !ok2 || mn < 1 || mn > r || r > mx {
+			return nil
+		}
+		bwe, err := gcc.NewSendSideBWE(gcc.SendSideBWEInitialBitrate(r), gcc.SendSideBWEMinBitrate(mn), gcc.SendSideBWEMaxBitrate(mx))
+		if err != nil {
+			return nil
+		}
+		if got := bwe.GetTargetBitrate(); got != r {
+			o.P("TARGET-IS-NOT-THE-INITIAL-BITRATE %d", got)
+		}
+		return &c17BwePacer{bwe: bwe, spare: spare, init: r, o: o}
+	})
+}
+
 func runLeaky(t *testing.T, ops []string, o *Out) {
+	runLeakyWith(t, ops, o, func(r int, _ map[string]string) c17Leaky { return gcc.NewLeakyBucketPacer(r) })
+}
+
+func runLeakyWith(t *testing.T, ops []string, o *Out, mk func(rate int, m map[string]string) c17Leaky) {
 	synctest.Test(t, func(t *testing.T) {
-		rec := &c17Rec{start: time.Now()}
-		var p *gcc.LeakyBucketPacer
+		rec := &c17Rec{start: time.Now(), errKinds: c17ErrKinds(ops)}
+		var p c17Leaky
 		lbinds, lcalls, lfails := map[int]int{}, map[int]int{}, map[int]map[int]bool{}
 		closed := false
 		defer func() {
@@ -478,7 +584,10 @@ func runLeaky(t *testing.T, ops []string, o *Out) {
 					o.P("bad-op")
 					continue
 				}
-				p = gcc.NewLeakyBucketPacer(r)
+				if p = mk(r, m); p == nil {
+					o.P("bad-op")
+					continue
+				}
 				synctest.Wait()
 			case "bind":
 				s, ok := c17NatOK(m, "s", 1<<32-1)
@@ -1030,6 +1139,49 @@ func genLeaky(r *Rng, tier string, idx int) Case {
 	return Case{Class: cl, Ops: ops}
 }
 
+// genBwePacer: the scenarios of `leaky`, run against the default pacer of a SendSideBWE (model: the leaky bucket at
+// the INITIAL bitrate).  The bitrate options are unusual but legal: very low initial / minimum bitrates, a non-default
+// initial bitrate, init = min, init = max.  No feedback arrives, so the estimate stays the initial bitrate.
+func genBwePacer(r *Rng, tier string, idx int) Case {
+	c := genLeaky(r, tier, idx)
+	for i, op := range c.Ops {
+		name, m := kv(op)
+		if name != "new" {
+			continue
+		}
+		rate, ok := c17NatOK(m, "rate", 2_000_000_000)
+		if !ok {
+			break
+		}
+		if r.Chance(1, 4) {
+			rate = r.Pick(1, 100, 800, 1000, 1500, 1599, 1600, 5000, 10_000, 10_001, 20_000_000)
+		}
+		if rate < 1 {
+			rate = 1
+		}
+		var mn, mx int
+		switch r.Intn(5) {
+		case 0:
+			mn, mx = rate, rate
+		case 1:
+			mn, mx = 1, rate // init = max
+		case 2:
+			mn, mx = rate, 2_000_000_000 // init = min
+		case 3:
+			mn, mx = rate/2+1, min(2*rate, 2_000_000_000)
+		default:
+			mn, mx = min(rate, 5000), max(rate, 50_000_000) // the package's default bounds where they fit
+		}
+		if mn > rate {
+			mn = rate
+		}
+		c.Ops[i] = fmt.Sprintf("new rate=%d min=%d max=%d", rate, mn, mx)
+		break
+	}
+	c.Class = "bwe-" + c.Class
+	return c
+}
+
 func c17N(quick, thorough int) func(string) int {
 	return func(tier string) int {
 		if tier == "thorough" {
@@ -1042,4 +1194,5 @@ func c17N(quick, thorough int) func(string) int {
 func init() {
 	register("pacing", &Comp{N: c17N(1100, 33000), Gen: genPacing, Run: runPacing})
 	register("leaky", &Comp{N: c17N(1000, 30000), Gen: genLeaky, Run: runLeaky})
+	register("bwepacer", &Comp{N: c17N(500, 12000), Gen: genBwePacer, Run: runBwePacer})
 }
